@@ -649,6 +649,96 @@ func helpers(c *explore.Ctx) {
 	c.Case(map[string]any{"field_number": num, "helper_calls": n})
 }
 
+// ---- two templated fields (seen-set indexing) and repeated application (outputs must not alias the template)
+
+var pairNumbers = [][2]int{{1, 33}, {7, 39}, {2, 34}, {31, 63}, {1, 2}, {1, 65}, {5, 37}, {64 + 3, 64 + 35}, {100, 132}, {63, 64}, {32, 64}, {1, 129}}
+
+func manualPairs(c *explore.Ctx) {
+	pr := pairNumbers[c.Choose(len(pairNumbers))]
+	a, b := pr[0], pr[1]
+	presA, presB := c.Choose(3), c.Choose(3) // absent / once / twice
+	order := c.Choose(2)                     // a's occurrences first, or b's
+	lead := c.Bool()                         // an untemplated field before everything
+	fa, fb := proto.FieldNumber(a), proto.FieldNumber(b)
+	tag := func(n int, v uint64) []byte {
+		return protowire.AppendVarint(protowire.AppendTag(nil, protowire.Number(n), protowire.VarintType), v)
+	}
+	mr := make(proto.MessageRewriter, b+1)
+	// templates with spare capacity (as ParseRewriteTemplate builds them): an output that aliased a template
+	// would be extended in place
+	roomy := func(m proto.RawMessage) proto.RawMessage { return append(make(proto.RawMessage, 0, 256), m...) }
+	mr[a], mr[b] = roomy(fa.Int64(111)), roomy(fb.String("bee"))
+	wantA := tag(a, 111)
+	wantB := protowire.AppendBytes(protowire.AppendTag(nil, protowire.Number(b), protowire.BytesType), []byte("bee"))
+	keepNum := 200
+	build := func(val, keepVal uint64) (in, want []byte) {
+		occ := func(n, count int, repl []byte) {
+			for i := 0; i < count; i++ {
+				in = append(in, tag(n, val+uint64(i))...)
+				if i == 0 {
+					want = append(want, repl...)
+				}
+				in = append(in, tag(keepNum, keepVal)...)
+				want = append(want, tag(keepNum, keepVal)...)
+			}
+		}
+		if lead {
+			in = append(in, tag(keepNum+1, 9)...)
+			want = append(want, tag(keepNum+1, 9)...)
+		}
+		if order == 0 {
+			occ(a, presA, wantA)
+			occ(b, presB, wantB)
+		} else {
+			occ(b, presB, wantB)
+			occ(a, presA, wantA)
+		}
+		// templated fields that the input lacks are appended in field number order
+		if presA == 0 {
+			want = append(want, wantA...)
+		}
+		if presB == 0 {
+			want = append(want, wantB...)
+		}
+		return
+	}
+	in1, want1 := build(9, 5)
+	in2, want2 := build(1000, 77)
+	desc := fmt.Sprintf("MessageRewriter{%d: int64, %d: string}, occurrences %d/%d, order %d, lead %v", a, b, presA, presB, order, lead)
+	var out1, out2, out3 []byte
+	var e1, e2, e3 error
+	if pv, ps := explore.Catch(func() {
+		out1, e1 = mr.Rewrite(nil, in1)
+		snap := append([]byte{}, out1...)
+		out2, e2 = mr.Rewrite(nil, in2)
+		out3, e3 = mr.Rewrite(nil, in1)
+		if !bytes.Equal(out1, snap) {
+			c.Fail("pairs:earlier-output-changed-by-later-Rewrite", "the output of the first Rewrite (% x) became % x after the rewriter was applied again, for %s", snap, out1, desc)
+		}
+	}); pv != nil {
+		c.Fail("pairs:panic:"+ps+":"+explore.PanicClass(pv), "Rewrite panicked: %v for %s", pv, desc)
+		return
+	}
+	if e1 != nil || e2 != nil || e3 != nil {
+		c.Fail("pairs:error", "Rewrite failed: %v %v %v for %s", e1, e2, e3, desc)
+		return
+	}
+	if !bytes.Equal(out1, want1) && !c.Failed() {
+		c.Fail(fmt.Sprintf("pairs:wrong-output:distance=%d", b-a), "output % x, want % x for %s (input % x)", out1, want1, desc, in1)
+	}
+	if !bytes.Equal(out2, want2) && !c.Failed() {
+		c.Fail("pairs:wrong-output:second-application", "second application gives % x, want % x for %s", out2, want2, desc)
+	}
+	if !bytes.Equal(out3, want1) && !c.Failed() {
+		c.Fail("pairs:wrong-output:third-application", "third application gives % x, want % x for %s", out3, want1, desc)
+	}
+	c.NontrivialStr("pairs", fmt.Sprint(a, b, presA, presB, order, lead))
+	c.Outcome(fmt.Sprintf("presA=%d presB=%d", presA, presB))
+	if c.WantSample() || c.Failed() {
+		c.Case(map[string]any{"rewriter": desc, "input": fmt.Sprintf("%x", in1), "output": fmt.Sprintf("%x", out1)})
+	}
+}
+
 // Spec returns the C19 check.
 func Spec() *explore.Spec {
 	return &explore.Spec{
@@ -662,6 +752,7 @@ func Spec() *explore.Spec {
 			},
 				Doc: "message types of 1-3 fields (21 field shapes: every integer kind, sint, bool, string, bytes, floats, pointer, nested, pointer-to-nested, repeated scalar/string/nested, string-keyed maps) x 15 field-number bases (1..70000) x input value per field {absent, present, other} x template per field {not mentioned, each template value, BitOr rule} x input form {canonical, unknown fields interleaved, scalars present twice, empty} x {empty out, out with a prefix}"},
 			{Name: "manual", ShardDepth: 2, Body: manual, Doc: "hand-assembled MessageRewriter / MultiRewriter for field numbers 1..2048 x replacement kinds x {absent, once, twice} : output compared byte-for-byte"},
+			{Name: "manual-pairs", ShardDepth: 2, Body: manualPairs, Doc: "rewriters templating two fields (12 number pairs incl. 32 and 64 apart within and across 64-blocks) x each field absent / once / twice x input order x leading untemplated field; applied three times with a nil output buffer: byte-exact outputs, and an earlier output is not changed by a later application"},
 			{Name: "helpers", ShardDepth: 1, Body: helpers, Doc: "FieldNumber.{Bool,Int*,Uint*,Fixed*,Float*,String,Bytes,Value} and Append* on boundary values x 11 field numbers vs protowire, then Parse"},
 		},
 		Rule: "every (type, numbering, input value, template subset/value, input form) within the bound; distinct non-trivial = distinct (type, value, template, input form) tuples",
